@@ -239,12 +239,21 @@ def judge(A, op, out, B):
 
     # ---- exception class (C12) and atomicity (C05) ----------------------------
     if out['exc'] is not None:
-        if not out['merge_error'] and not out['injected']:
+        if not out['merge_error'] and not out['injected'] and not op.get('malformed'):
             add('C12.exc', '%s escaped from merging %s' % (out['exc'], t))
         if not out['same'] or A != B:
             add('C05.atomic', 'running order changed although merging %s raised %s' % (t, out['exc']))
     elif not out['result_ok']:
         add('C12.exc', 'merge of %s did not return the running order' % t)
+
+    if op.get('malformed'):
+        # a message that is not schema-shaped: the properties only say that a raising merge changes nothing
+        # and that nothing but a roDelete completes a running order
+        if vb.metas and t != 'RODelete':
+            add('C07.never-completed', 'completed after a malformed %s' % t)
+        return V
+    if op.get('foreign') and out['merge_error'] and out['same'] and A == B:
+        return V        # refusing a message addressed to another running order is accepted
 
     # ---- envelope (part of the frame) ----------------------------------------
     if va.envelope != vb.envelope or vb.n_rc != 1:
@@ -443,7 +452,8 @@ def _judge_meta(va, vb, op, out, mosw, add):
     t = op['type']
     if vb.metas:
         add('C07.never-completed', 'completed after %s' % t)
-    carried = [canon(n) for n in op.get('payload', [])]
+    # the message element carries its roID child like any other metadata element
+    carried = [canon(['roID', {}, op.get('ro_id', 'RO1'), '', []])] + [canon(n) for n in op.get('payload', [])]
     keys = [_mkey(c) for c in carried]
     K = set(keys)
     if out['exc'] is not None:
